@@ -50,6 +50,20 @@ func (te *transportEnv) run(c *vf.Ctx) {
 			cases = append(cases, tCase{Family: "sequence", Transport: tr.t, Mode: tr.m, Seq: s})
 		}
 	}
+	// 1b. size sweep: one blob message of EVERY length in windows around the minimum frame size, around 16-byte
+	// (cipher block / MAC padding) alignment at several magnitudes, both directions, both rhp/v2 read modes and rhp/v3
+	var sweep []int
+	for _, w := range [][2]int{{0, 40}, {4020, 4110}, {4990, 5030}, {16370, 16410}, {32750, 32790}} {
+		for n := w[0]; n <= w[1]; n++ {
+			sweep = append(sweep, n)
+		}
+	}
+	c.Set("size_sweep_lengths", len(sweep))
+	for _, n := range sweep {
+		for _, dm := range []struct{ t, d, m string }{{"rhp2", "request", "read"}, {"rhp2", "response", "read"}, {"rhp2", "response", "raw"}, {"rhp3", "request", ""}, {"rhp3", "response", ""}} {
+			cases = append(cases, tCase{Family: "sequence", Transport: dm.t, Mode: dm.m, Dir: dm.d, BlobLen: n, Seq: []int{shBlob}})
+		}
+	}
 	// 2. gateway handshake mismatches
 	for _, mm := range []string{"none", "genesis", "unique", "both"} {
 		for _, side := range []string{"both", "dialer", "accepter"} {
@@ -292,6 +306,9 @@ func (te *transportEnv) checkSequence(c *rep, tc tCase, res *sessResult) {
 func shapeOf(tc tCase, msg int) string {
 	if msg >= 0 && msg < len(tc.Seq) && tc.Seq[msg] < len(shapeNames) {
 		return shapeNames[tc.Seq[msg]]
+	}
+	if msg >= 0 && msg < len(tc.Seq) && tc.Seq[msg] == shBlob {
+		return "blob-of-swept-length"
 	}
 	return "?"
 }
